@@ -20,6 +20,9 @@ pub struct BCfg {
     pub self_id_len: usize,
     pub member_id_lens: Vec<usize>,
     pub ipv6: bool,
+    /// ids with random generations, random address bytes and mixed-script node ids (little for zstd to gain)
+    #[serde(default)]
+    pub high_entropy: bool,
     pub grace_ms: u64,
     pub dead_grace_ms: u64,
 }
@@ -42,15 +45,38 @@ pub enum BCmd {
     Evaluate,
 }
 
-fn mk_id(len: usize, idx: usize, ipv6: bool) -> Id {
+fn mk_id(len: usize, idx: usize, ipv6: bool, high_entropy: bool) -> Id {
     let mut s = format!("m{idx}");
     let mut r = Rng::new(idx as u64 + 77);
     while s.len() < len {
-        s.push((b'a' + r.below(26) as u8) as char);
+        if high_entropy {
+            // printable ASCII and 2-byte characters, so byte values spread out
+            let c = if r.chance(0.3) { char::from_u32(0xa1 + r.below(0x6ff - 0xa1) as u32).unwrap_or('x') } else { (0x21 + r.below(0x5e) as u8) as char };
+            s.push(c);
+        } else {
+            s.push((b'a' + r.below(26) as u8) as char);
+        }
     }
-    s.truncate(len.max(2));
-    let addr: SocketAddr = if ipv6 { format!("[fd00::{:x}]:{}", idx + 1, 7000 + idx).parse().unwrap() } else { format!("10.1.0.{}:{}", idx + 1, 7000 + idx).parse().unwrap() };
-    Id { node_id: s, generation: 0, addr }
+    let mut cut = len.max(2).min(s.len());
+    while !s.is_char_boundary(cut) {
+        cut -= 1;
+    }
+    s.truncate(cut);
+    let port = 7000 + idx as u16;
+    let addr: SocketAddr = if high_entropy {
+        if ipv6 {
+            let g: Vec<u16> = (0..8).map(|_| 1 + r.below(0xfffe) as u16).collect();
+            SocketAddr::new(std::net::IpAddr::V6(std::net::Ipv6Addr::new(g[0], g[1], g[2], g[3], g[4], g[5], g[6], g[7])), 1 + r.below(65_000) as u16)
+        } else {
+            SocketAddr::new(std::net::IpAddr::V4(std::net::Ipv4Addr::new(1 + r.below(254) as u8, r.below(256) as u8, r.below(256) as u8, 1 + r.below(254) as u8)), 1 + r.below(65_000) as u16)
+        }
+    } else if ipv6 {
+        format!("[fd00::{:x}]:{}", idx + 1, port).parse().unwrap()
+    } else {
+        format!("10.1.0.{}:{}", idx + 1, port).parse().unwrap()
+    };
+    let generation = if high_entropy { r.next() } else { 0 };
+    Id { node_id: s, generation, addr }
 }
 
 struct Bw {
@@ -62,13 +88,14 @@ struct Bw {
     nontrivial: bool,
     log: Vec<String>,
     keep_log: bool,
+    high_entropy: bool,
 }
 
 impl Bw {
     fn new(cfg: &BCfg, keep_log: bool) -> Bw {
-        let mut ids = vec![mk_id(cfg.self_id_len, 0, cfg.ipv6)];
+        let mut ids = vec![mk_id(cfg.self_id_len, 0, cfg.ipv6, cfg.high_entropy)];
         for (i, l) in cfg.member_id_lens.iter().enumerate() {
-            ids.push(mk_id(*l, i + 1, cfg.ipv6));
+            ids.push(mk_id(*l, i + 1, cfg.ipv6, cfg.high_entropy));
         }
         let solo = Solo::new(
             SoloCfg {
@@ -84,7 +111,7 @@ impl Bw {
             },
             None,
         );
-        Bw { solo, ids, stats: Stats::default(), trace: Trace::default(), step: 0, nontrivial: false, log: Vec::new(), keep_log }
+        Bw { solo, ids, stats: Stats::default(), trace: Trace::default(), step: 0, nontrivial: false, log: Vec::new(), keep_log, high_entropy: cfg.high_entropy }
     }
 
     fn viol(&self, code: &str, detail: String) -> Violation {
@@ -194,6 +221,10 @@ impl Bw {
                 let Some(copy) = view.get(&id) else { return Ok(()) };
                 let mut ops = vec![Op::Node { id: id.clone(), gc: (*gc).min(copy.mv).max(copy.gc), from: copy.mv }];
                 let mut v = copy.mv;
+                if v == 0 && self.high_entropy {
+                    // versions with all bytes in use
+                    v = 0x0101_0101_0101_0101u64.wrapping_mul(1 + (*member as u64 % 120));
+                }
                 for (k, val, status) in kvs {
                     v += 1;
                     ops.push(Op::Kv(Kv { key: k.clone(), value: val.render(), version: v, status: *status % 3 }));
@@ -280,7 +311,7 @@ fn gen_claims(r: &mut Rng, w: &Bw) -> Vec<(usize, u64, u64)> {
 fn run(seed: u64, keep_log: bool) -> (BCfg, Vec<BCmd>, Bw, Option<Violation>) {
     let mut r = Rng::new(seed);
     let regime = r.below(5);
-    let ipv6 = r.chance(0.3);
+    let ipv6 = r.chance(0.3) || std::env::var("DEBUG_V6").is_ok();
     let per_member_fixed = 2 + 8 + if ipv6 { 19 } else { 7 } + 24;
     let self_len = *r.pick(&[2usize, 6, 40, 300]);
     let member_id_lens: Vec<usize> = match regime {
@@ -298,7 +329,7 @@ fn run(seed: u64, keep_log: bool) -> (BCfg, Vec<BCmd>, Bw, Option<Violation>) {
         2 => (0..r.range(5, 40)).map(|_| r.range(2, 30) as usize).collect(),
         _ => (0..r.range(0, 4)).map(|_| r.range(2, 20) as usize).collect(),
     };
-    let cfg = BCfg { self_id_len: self_len, member_id_lens, ipv6, grace_ms: 10_000, dead_grace_ms: *r.pick(&[20_000u64, 100_000_000]) };
+    let cfg = BCfg { self_id_len: self_len, member_id_lens, ipv6, high_entropy: r.chance(0.5), grace_ms: 10_000, dead_grace_ms: *r.pick(&[20_000u64, 100_000_000]) };
     let mut w = Bw::new(&cfg, keep_log);
     let mut cmds: Vec<BCmd> = Vec::new();
     let mut violation = None;
